@@ -127,9 +127,18 @@ def _lookup(doc, names):
     return cur
 
 
-def observe_mutate(sc):
+def final_doc(sc):
+    """the document after the history (used by the generators to keep aiming at what exists)"""
+    box = {}
+    observe_mutate(sc, box)
+    return box.get("doc")
+
+
+def observe_mutate(sc, _box=None):
     from treepath import set_, set_match, pop, pop_match
     doc = dec(sc["doc"])
+    if _box is not None:
+        _box["doc"] = doc
     num = Numbering()
     handles = {}
     out = [{"r": ["init"], "g": num.dump(doc)}]
